@@ -3,4 +3,6 @@ import PsVerif.Generated.Lifecycle
 #print axioms PsVerif.Gen.life_updModes_denotes
 #print axioms PsVerif.Gen.life_validate_is_spec
 #print axioms PsVerif.Gen.life_validate_denotes
+#print axioms PsVerif.Gen.life_setN_is_spec
+#print axioms PsVerif.Gen.life_setN_denotes
 #print axioms PsVerif.Gen.life_fitHead_is_spec
